@@ -121,7 +121,14 @@ func (Segment).Recover
       invariant[sync] wrOK(restore)
 
 func (Segment).Migrate
-    flags noframe only_sync only_crash
+    flags noframe only_sync only_crash only_version
+    // C17: a segment already in the target version is left untouched (migrating twice is migrating once) ...
+    assert[version_noop]    oldLog.v == mversion && (forall p string :: fsContent[p] == old(fsContent)[p] && fsExists[p] == old(fsExists)[p]) at return 2
+    assert[version_differs] oldLog.v != mversion at call message.OpenWriter 1
+    // ... otherwise the copy is written in the target message version and indexed in the target index version
+    assert[version_log]     arg2 == mversion && arg1 == s.Offset at call message.OpenWriter 1
+    assert[version_index]   arg2 == iversion && arg0 == s.Index && arg1 == s.Offset && arg3 == params at call index.Write 1
+    assert[version_inplace] arg0 == migratedLog.Path && arg1 == s.Log && migratedLog.Path == s.Log + ".migrate" at call os.Rename 1
     assert[crash_tempfresh] !fsExists[s.Log + ".migrate"] at call message.OpenWriter 1
     assigns fPath, fsDirty, fsExists, fsContent, dirDirty, index.Writer.pos
     ensures[sync_dir] err == nil && s.AutoSync && fsContent[s.Log] != old(fsContent[s.Log]) ==> !dirDirty[s.Dir]
